@@ -1,104 +1,59 @@
 (* Teardown (C09): handshake families in which the T1 timer may exhaust its retransmissions.
-   After fix aeda016 (the connect call closes the association when the handshake result is an error) the
-   run "T1 gives up, the handshake completes late, the transport fails" terminates: the families with a
-   Close() or a transport read failure pass every check.  What is left in the faithful model is a narrow
-   race: the failure callback of T1 has fired and waits for a.lock while the read loop completes the
-   handshake; its completeHandshake(err) then finds nobody and blocks under a.lock (witness runs below). *)
+   History: before aeda016 the connect call returned the handshake error and left the association running; a
+   late COOKIE-ACK then blocked the read loop for ever in completeHandshake (D27).  After aeda016 one race was
+   left: the failure callback of T1, already fired, took a.lock after the read loop had completed the handshake
+   and blocked in completeHandshake(err) with the lock held (D31, schedule td_old_race_schedule).  After c7c80cb
+   the callback re-checks the state under the lock; every T1 family passes every check. *)
 From Coq Require Import Bool List PArith NArith.
 From Sctp Require Import Gen Teardown TeardownProofs.
 Import ListNotations.
 
-(* the safety clauses other than "a stuck state is finished" hold in every T1 family *)
-Definition td_chk_state_t1 (s : td_state) : bool :=
-  td_chk_wac s && td_chk_chan s && td_chk_abort s && td_chk_close2 s && td_chk_shut s.
-
-Lemma td_families_t1_safe : forallb (fun c => td_check_family_safe c td_chk_state_t1) td_families_t1 = true.
-Proof. vm_cast_no_check (eq_refl true). Qed.
-
-(* with a Close() call or a failing conn.Read as the injection everything holds (a read error makes the read
-   loop close closeWriteLoopCh before it needs the lock, which releases a blocked completeHandshake) *)
-Definition td_families_t1_ok : list td_cfg :=
-  [mkTdCfg TdPhHs TdInjClose TdMixNone true false; mkTdCfg TdPhHs TdInjRfail TdMixNone true false].
-
-Lemma td_families_t1_ok_chk : forallb td_check_family td_families_t1_ok = true.
+Lemma td_families_t1_ok : forallb td_check_family td_families_t1 = true.
 Proof. vm_cast_no_check (eq_refl true). Qed.
 
 Definition td_sizes_t1 : list N := Eval vm_compute in map td_family_size td_families_t1.
 
-(* The former witness (before aeda016): T1 fires, takes the lock, the connect call receives the error; a late
-   COOKIE-ACK; the transport fails.  Now the connect call closes the association, the run goes on to a
-   finished state. *)
-Definition td_cfg_t1_rfail := mkTdCfg TdPhHs TdInjRfail TdMixNone true false.
-
-(* Residual witness (Abort): the T1 failure callback has fired (1); the handshake-completing packet is handled
-   (2) and the connect call returns the association (3); the callback gets a.lock and blocks in
-   completeHandshake(err): nobody receives, no channel is closed (4); Abort() is called and blocks on a.lock
-   for ever (5). *)
+(* The schedule that wedged the association before c7c80cb: the T1 failure callback has fired (1); the
+   handshake-completing packet is handled (2) and the connect call returns the association (3); the callback
+   gets a.lock (4); Abort() is called (5).  Step 4 now finds the state changed and returns: the lock is free,
+   the callback is done, Abort() is not blocked. *)
 Definition td_cfg_t1_abort := mkTdCfg TdPhHs TdInjAbort TdMixNone true false.
-Definition td_witness_t1_abort : list nat := [7; 2; 1; 4; 0].
+Definition td_old_race_schedule : list nat := [7; 2; 1; 4; 0].
 
-Definition td_tfpc_is_blocked (x : td_tfpc) := match x with TdTfBlocked => true | _ => false end.
+Definition td_tfpc_is_done (x : td_tfpc) := match x with TdTfDone => true | _ => false end.
 Definition td_cwpc_is_ok (x : td_cwpc) := match x with TdCwOk => true | _ => false end.
 Definition td_abpc_is_flag (x : td_abpc) := match x with TdAbFlag => true | _ => false end.
 Definition td_ast_is_est (x : td_ast) := match x with TdStEst => true | _ => false end.
 
-Definition td_witness_t1_abort_chk : bool :=
-  match td_follow td_cfg_t1_abort (td_init td_cfg_t1_abort) td_witness_t1_abort with
-  | Some s => td_cwpc_is_ok (td_cw s) && td_tfpc_is_blocked (td_tf s) && td_lk s && td_abpc_is_flag (td_ab s) &&
-              td_ast_is_est (td_st s) && td_final td_cfg_t1_abort s && negb (td_done s)
+Definition td_old_race_chk : bool :=
+  match td_follow td_cfg_t1_abort (td_init td_cfg_t1_abort) td_old_race_schedule with
+  | Some s => td_cwpc_is_ok (td_cw s) && td_tfpc_is_done (td_tf s) && negb (td_lk s) && td_abpc_is_flag (td_ab s) &&
+              td_ast_is_est (td_st s) && negb (td_final td_cfg_t1_abort s) &&
+              negb (td_is_nil (td_abort_caller s))
   | None => false
   end.
 
-Lemma td_witness_t1_abort_chk_ok : td_witness_t1_abort_chk = true.
+Lemma td_old_race_chk_ok : td_old_race_chk = true.
 Proof. vm_cast_no_check (eq_refl true). Qed.
 
-Lemma td_witness_t1_abort_ok :
-  exists s, td_follow td_cfg_t1_abort (td_init td_cfg_t1_abort) td_witness_t1_abort = Some s /\
-            td_cw s = TdCwOk /\ td_tf s = TdTfBlocked /\ td_lk s = true /\ td_ab s = TdAbFlag /\ td_st s = TdStEst /\
-            td_final td_cfg_t1_abort s = true /\ td_done s = false.
-Proof.
-  pose proof td_witness_t1_abort_chk_ok as H. unfold td_witness_t1_abort_chk in H.
-  destruct (td_follow td_cfg_t1_abort (td_init td_cfg_t1_abort) td_witness_t1_abort) as [s|]; [|discriminate H].
-  repeat (apply andb_true_iff in H; destruct H as [H ?]).
-  exists s. split; [reflexivity|].
-  split; [destruct (td_cw s); try discriminate; reflexivity|].
-  split; [destruct (td_tf s); try discriminate; reflexivity|].
-  split; [assumption|].
-  split; [destruct (td_ab s); try discriminate; reflexivity|].
-  split; [destruct (td_st s); try discriminate; reflexivity|].
-  split; [assumption|]. apply negb_true_iff. assumption.
-Qed.
-
-Lemma td_witness_t1_abort_actors :
-  td_path_actors td_cfg_t1_abort (td_init td_cfg_t1_abort) td_witness_t1_abort
+Lemma td_old_race_actors :
+  td_path_actors td_cfg_t1_abort (td_init td_cfg_t1_abort) td_old_race_schedule
     = [TdAT1Fail; TdAEnv; TdARead; TdAT1Fail; TdAEnv].
 Proof. vm_cast_no_check (eq_refl [TdAT1Fail; TdAEnv; TdARead; TdAT1Fail; TdAEnv]). Qed.
 
-(* Residual witness (conn.Write fails): the same blocked callback; the write loop never gets a.lock, the
-   failure is never noticed. *)
-Definition td_cfg_t1_wfail := mkTdCfg TdPhHs TdInjWfail TdMixNone true false.
-Definition td_witness_t1_wfail : list nat := [7; 2; 1; 4; 0].
-
-Definition td_witness_t1_wfail_chk : bool :=
-  match td_follow td_cfg_t1_wfail (td_init td_cfg_t1_wfail) td_witness_t1_wfail with
-  | Some s => td_cwpc_is_ok (td_cw s) && td_tfpc_is_blocked (td_tf s) && td_lk s && td_wfail s && td_injd s &&
-              td_final td_cfg_t1_wfail s && negb (td_done s)
-  | None => false
-  end.
-
-Lemma td_witness_t1_wfail_chk_ok : td_witness_t1_wfail_chk = true.
-Proof. vm_cast_no_check (eq_refl true). Qed.
-
-Lemma td_witness_t1_wfail_ok :
-  exists s, td_follow td_cfg_t1_wfail (td_init td_cfg_t1_wfail) td_witness_t1_wfail = Some s /\
-            td_cw s = TdCwOk /\ td_tf s = TdTfBlocked /\ td_lk s = true /\ td_wfail s = true /\ td_injd s = true /\
-            td_final td_cfg_t1_wfail s = true /\ td_done s = false.
+Lemma td_old_race_now_harmless :
+  exists s, td_follow td_cfg_t1_abort (td_init td_cfg_t1_abort) td_old_race_schedule = Some s /\
+            td_cw s = TdCwOk /\ td_tf s = TdTfDone /\ td_lk s = false /\ td_ab s = TdAbFlag /\ td_st s = TdStEst /\
+            td_abort_caller s <> [].
 Proof.
-  pose proof td_witness_t1_wfail_chk_ok as H. unfold td_witness_t1_wfail_chk in H.
-  destruct (td_follow td_cfg_t1_wfail (td_init td_cfg_t1_wfail) td_witness_t1_wfail) as [s|]; [|discriminate H].
+  pose proof td_old_race_chk_ok as H. unfold td_old_race_chk in H.
+  destruct (td_follow td_cfg_t1_abort (td_init td_cfg_t1_abort) td_old_race_schedule) as [s|]; [|discriminate H].
   repeat (apply andb_true_iff in H; destruct H as [H ?]).
   exists s. split; [reflexivity|].
   split; [destruct (td_cw s); try discriminate; reflexivity|].
   split; [destruct (td_tf s); try discriminate; reflexivity|].
-  repeat split; try assumption. apply negb_true_iff. assumption.
+  split; [apply negb_true_iff; assumption|].
+  split; [destruct (td_ab s); try discriminate; reflexivity|].
+  split; [destruct (td_st s); try discriminate; reflexivity|].
+  destruct (td_abort_caller s); [discriminate | discriminate].
 Qed.
